@@ -881,7 +881,10 @@ func (tic *TermInCommittee) HandleNewView(nvm *interfaces.NewViewMessage) {
 	if latestVote == nil {
 		header := ppm.Content().SignedHeader()
 
-		ctx, err := tic.State.Contexts.For(state.NewHeightView(nvmHeader.BlockHeight(), nvm.View()))
+		// the block is validated before the node moves to the NEW_VIEW's view: the call runs under the context of the
+		// position the node is in, which the election of that position cancels (the context of the later view would
+		// not be cancelled by it, and a validator waiting on its context would keep the node from changing view)
+		ctx, err := tic.State.Contexts.For(tic.State.HeightView())
 		if err != nil {
 			tic.logger.Info("LHFLOW LHMSG RECEIVED NEW_VIEW IGNORE - %e", err)
 			return
